@@ -25,22 +25,43 @@ pub fn shrink_bytes(data: &[u8]) -> Vec<Vec<u8>> {
         lines.push(&data[start..]);
     }
     if lines.len() > 1 {
-        // drop halves, then single lines
-        let half = lines.len() / 2;
-        out.push(lines[..half].concat());
-        out.push(lines[half..].concat());
-        for skip in 0..lines.len() {
-            let mut v = Vec::new();
-            for (i, l) in lines.iter().enumerate() {
-                if i != skip {
-                    v.extend_from_slice(l);
+        // drop halves, quarters, ... (delta debugging), then single lines when there are few
+        let mut parts = 2;
+        while parts <= lines.len() && parts <= 16 {
+            let size = (lines.len() + parts - 1) / parts;
+            for p in 0..parts {
+                let (a, b) = (p * size, ((p + 1) * size).min(lines.len()));
+                if a >= b {
+                    continue;
                 }
+                // keep only this part / drop only this part
+                if parts == 2 {
+                    out.push(lines[a..b].concat());
+                }
+                let mut v = Vec::new();
+                for (i, l) in lines.iter().enumerate() {
+                    if i < a || i >= b {
+                        v.extend_from_slice(l);
+                    }
+                }
+                out.push(v);
             }
-            out.push(v);
+            parts *= 2;
+        }
+        if lines.len() <= 32 {
+            for skip in 0..lines.len() {
+                let mut v = Vec::new();
+                for (i, l) in lines.iter().enumerate() {
+                    if i != skip {
+                        v.extend_from_slice(l);
+                    }
+                }
+                out.push(v);
+            }
         }
     }
-    // shorten each line
-    for (li, line) in lines.iter().enumerate() {
+    // shorten each line (only when there are few: line-level reduction comes first)
+    for (li, line) in lines.iter().enumerate().take(if lines.len() <= 32 { lines.len() } else { 0 }) {
         let body_len = if line.last() == Some(&b'\n') { line.len() - 1 } else { line.len() };
         if body_len == 0 {
             continue;
@@ -126,6 +147,17 @@ pub fn array_field(case: &J, key: &str, out: &mut Vec<J>) {
                 for skip in 0..a.len() {
                     let v: Vec<J> = a.iter().enumerate().filter(|(i, _)| *i != skip).map(|(_, x)| x.clone()).collect();
                     out.push(with_field(case, key, J::Array(v)));
+                }
+            } else {
+                for parts in [4usize, 8, 16] {
+                    let size = (a.len() + parts - 1) / parts;
+                    for p in 0..parts {
+                        let (lo, hi) = (p * size, ((p + 1) * size).min(a.len()));
+                        if lo < hi {
+                            let v: Vec<J> = a.iter().enumerate().filter(|(i, _)| *i < lo || *i >= hi).map(|(_, x)| x.clone()).collect();
+                            out.push(with_field(case, key, J::Array(v)));
+                        }
+                    }
                 }
             }
         }
